@@ -58,6 +58,11 @@ class C08(Prop):
                     return z
             return []
 
+        # 0. the input of the recorded known finding (large potentials, see known_findings.json): always exercised, so that
+        #    the KNOWN-FINDING line is printed on every run
+        yield dict(kind='known-finding-large-potentials', dom=[['a', 2], ['b', 2]],
+                   ms=[dict(proj=['a'], q='I', noise=1.0, exact=True, y=[80.0, 20.0])], truth='uniform', zeros=[], total=1.0,
+                   engine='MD', iters=50, seed=nxt())
         # 1. empty measurement list: every solver x zeros x known/estimated total
         for eng in ENGINES:
             for total in (None, 16.0):
